@@ -24,6 +24,23 @@ def fibers_at(root, depth):
     return out
 
 
+def _bx(rng, elem=False):
+    """how a scalar argument is handed over: 0 plain, 1 boxed, 2 boxed twice (Payload(Payload(v)), the copy
+    idiom), 3 an element (CoordPayload) as in-place addend; the stored leaf must be singly boxed regardless"""
+    return rng.choice([0, 0, 0, 1, 2, 3] if elem else [0, 0, 0, 1, 2])
+
+
+def _box(v, bx, add=False):
+    ft = H.ft()
+    if not isinstance(v, int) or not bx:
+        return v
+    if bx == 1:
+        return ft.Payload(v)
+    if bx == 3:
+        return ft.CoordPayload(0, v) if add else ft.Payload(v)
+    return ft.Payload(ft.Payload(v))
+
+
 STRUCTURAL = ["append", "extend", "setitem", "updcoords", "clear", "updpayloads"]
 
 
@@ -64,7 +81,7 @@ def gen_op(rng, root, depth, dflt, n, alphabet, structural=False):
         last = f.coords[-1] if f.coords else -1
         cc = last + rng.randrange(1, 3) if rng.random() < 0.7 else rng.randrange(-1, last + 1) if last >= 0 else 0
         v = rng.choice(POOL) if sub_depth == 1 else H.gen_tree(rng, sub_depth - 1, n, POOL, dflt)
-        return {"k": "append", "at": path, "c": cc, "v": v}
+        return {"k": "append", "at": path, "c": cc, "v": v, "bx": _bx(rng)}
     if k == "extend":
         last = f.coords[-1] if f.coords else -1
         base = last + 1 if rng.random() < 0.7 else max(0, last - 1)
@@ -77,7 +94,7 @@ def gen_op(rng, root, depth, dflt, n, alphabet, structural=False):
             v = None
         else:
             v = rng.choice(POOL) if sub_depth == 1 else H.gen_tree(rng, sub_depth - 1, n, POOL, dflt)
-        return {"k": "setitem", "at": path, "pos": pos, "c": cc, "v": v}
+        return {"k": "setitem", "at": path, "pos": pos, "c": cc, "v": v, "bx": _bx(rng)}
     if k == "iadd" and sub_depth == 1:
         return {"k": "iadd", "at": path, "s": rng.choice([1, -1, 0, 2])}
     if k == "imul" and sub_depth == 1:
@@ -114,12 +131,12 @@ def gen_op(rng, root, depth, dflt, n, alphabet, structural=False):
                 acts.append([p, "skip", 0])
             elif r < 0.3:
                 acts.append([p, "touch", rng.randrange(0, n + 1)])
-        return {"k": "populate", "at": path, "a": a, "acts": acts}
+        return {"k": "populate", "at": path, "a": a, "acts": acts, "bx": _bx(rng, True)}
     if k == "denseref":
         s = rng.randrange(0, n)
         e = rng.randrange(s, n + 2)
         writes = [[cc, rng.choice(POOL)] for cc in range(s, e) if rng.random() < 0.4] if sub_depth == 1 else []
-        return {"k": "denseref", "at": path, "s": s, "e": e, "step": rng.choice([1, 1, 2]), "w": writes}
+        return {"k": "denseref", "at": path, "s": s, "e": e, "step": rng.choice([1, 1, 2]), "w": writes, "bx": _bx(rng)}
     if k == "updcoords":
         return {"k": "updcoords", "at": path, "mul": rng.choice([1, 2, -1, -2]), "add": rng.choice([0, 1, -3, 4])}
     if k == "updpayloads" and sub_depth == 1:
@@ -183,11 +200,11 @@ def apply_op(root, depth, dflt, op):
         elif k == "posref":
             f.getPositionRef(op["c"])
         elif k == "append":
-            f.append(op["c"], _val(op["v"], sub_depth, dflt))
+            f.append(op["c"], _box(_val(op["v"], sub_depth, dflt), op.get("bx", 0)))
         elif k == "extend":
             f.extend(H.build_fiber(op["f"], sub_depth, dflt))
         elif k == "setitem":
-            v = _val(op["v"], sub_depth, dflt) if op["v"] is not None else None
+            v = _box(_val(op["v"], sub_depth, dflt), op.get("bx", 0)) if op["v"] is not None else None
             if op["c"] is None:
                 if v is None:
                     return "ok"
@@ -216,9 +233,9 @@ def apply_op(root, depth, dflt, op):
                         if act is None:
                             zr += av
                         elif act[0] == "assign":
-                            zr <<= act[1]
+                            zr <<= _box(act[1], op.get("bx", 0))
                         elif act[0] == "add":
-                            zr += act[1]
+                            zr += _box(act[1], op.get("bx", 0), add=True)
                         elif act[0] == "reset":
                             zr <<= dflt
                     else:
@@ -234,7 +251,7 @@ def apply_op(root, depth, dflt, op):
             w = dict((c, v) for c, v in op["w"])
             for c, p in f.iterRangeShapeRef(op["s"], op["e"], op["step"]):
                 if c in w:
-                    p <<= w[c]
+                    p <<= _box(w[c], op.get("bx", 0))
         elif k == "updcoords":
             m, a = op["mul"], op["add"]
             f.updateCoords(lambda i, c, p: m * c + a)
